@@ -353,6 +353,69 @@ impl World {
                 out.extend(n.dump_delta());
                 out
             }
+            "OPLOG" => {
+                // OPLOG set|rot <t,k,d,o;...> | query <since> | last | append <t,k,d,o> | files | declutter
+                nundb::verif::set_data_dir(Some(n.dir.clone()));
+                let parse = |s: &str| -> Vec<(u64, u64, u64, u8)> {
+                    s.split(';').filter(|x| !x.is_empty()).map(|r| { let f: Vec<&str> = r.split(',').collect();
+                        (f[0].parse().unwrap(), f[1].parse().unwrap(), f[2].parse().unwrap(), f[3].parse().unwrap()) }).collect()
+                };
+                let bytes = |recs: &Vec<(u64, u64, u64, u8)>| -> Vec<u8> {
+                    let mut b = vec![];
+                    for (t, k, d, o) in recs { b.extend(&t.to_le_bytes()); b.extend(&k.to_le_bytes()); b.extend(&d.to_le_bytes()); b.push(*o); }
+                    b
+                };
+                let sub = a1; let arg = a2;
+                let mut out = vec![];
+                let dir = n.dir.clone();
+                let r = std::panic::catch_unwind(std::panic::AssertUnwindSafe(|| {
+                    let mut out = vec![];
+                    match sub {
+                        "set" => { std::fs::write(format!("{}/oplog-nun.op", dir), bytes(&parse(arg))).unwrap(); }
+                        "rot" => {
+                            std::fs::create_dir_all(format!("{}/oplog", dir)).unwrap();
+                            std::thread::sleep(std::time::Duration::from_millis(4));
+                            let cnt = std::fs::read_dir(format!("{}/oplog", dir)).unwrap().count();
+                            std::fs::write(format!("{}/oplog/oplog-nun-{:04}.op", dir, cnt), bytes(&parse(arg))).unwrap();
+                            std::thread::sleep(std::time::Duration::from_millis(4));
+                        }
+                        "query" => {
+                            let since: u64 = arg.parse().unwrap();
+                            let m = nundb::disk_ops::read_operations_since(since);
+                            let mut ks: Vec<&String> = m.keys().collect(); ks.sort();
+                            for k in ks { let r = m.get(k).unwrap(); out.push(format!("Q {} opp={} ts={}", k, r.opp.to_u8(), r.timestamp)); }
+                        }
+                        "last" => { out.push(format!("T {}", nundb::disk_ops::Oplog::last_op_time())); }
+                        "append" => {
+                            let recs = parse(arg);
+                            let mut stream = nundb::disk_ops::Oplog::get_log_file_append_mode();
+                            for (t, k, d, o) in recs {
+                                let r = nundb::disk_ops::Oplog::try_write_op_log(&mut stream, Some(d), k, &ReplicateOpp::from(o), t);
+                                out.push(format!("A {}", match r { Ok(id) => format!("ok {}", id), Err(e) => format!("err {}", e) }));
+                            }
+                        }
+                        "declutter" => { nundb::disk_ops::verif_remove_old_db_files(); }
+                        _ => {}
+                    }
+                    out
+                }));
+                match r { Ok(o) => out.extend(o), Err(_) => out.push(format!("R PANIC {}", LAST_PANIC.with(|p| p.borrow_mut().take()).unwrap_or_default())) }
+                // file listing: current file then rotated files newest first (by creation time)
+                let read_recs = |path: &str| -> String {
+                    let b = std::fs::read(path).unwrap_or_default();
+                    let mut v = vec![];
+                    for c in b.chunks(25) { if c.len() == 25 {
+                        v.push(format!("{},{},{},{}", u64::from_le_bytes(c[0..8].try_into().unwrap()), u64::from_le_bytes(c[8..16].try_into().unwrap()), u64::from_le_bytes(c[16..24].try_into().unwrap()), c[24])); } else { v.push(format!("partial{}", c.len())); } }
+                    v.join(";")
+                };
+                out.push(format!("O cur {}", read_recs(&format!("{}/oplog-nun.op", n.dir))));
+                if let Ok(rd) = std::fs::read_dir(format!("{}/oplog", n.dir)) {
+                    let mut es: Vec<_> = rd.filter_map(|e| e.ok()).collect();
+                    es.sort_by(|a, b| b.metadata().unwrap().created().unwrap().cmp(&a.metadata().unwrap().created().unwrap()));
+                    for (i, e) in es.iter().enumerate() { out.push(format!("O rot{} {}", i, read_recs(e.path().to_str().unwrap()))); }
+                }
+                out
+            }
             "REG" => {
                 let op: u64 = match a1.parse() { Ok(s) => s, Err(_) => return vec!["E bad-op".into()] };
                 let msg = n.dbs.register_pending_opp(op, "m".to_string(), &a2.to_string());
